@@ -17,6 +17,7 @@ def shape_root_ds_from_anchors_authority : Bool := true
 def shape_signer_checked_before_findds_answer : Bool := true
 def shape_signer_checked_before_findds_authority : Bool := true
 def shape_signer_checked_before_findds_validateDelegation : Bool := true
+def shape_validated_denial_keeps_signer_zone_only : Bool := true
 def shape_verifydnssec_anchors_own_dnskey_rrset : Bool := true
 def shape_wildcard_proof_from_filtered_authority : Bool := true
 def zone_flag : Nat := 256
